@@ -126,7 +126,6 @@ pub uninterp spec fn poll_eff(w: World) -> World;
 pub uninterp spec fn abort_eff(w: World, s: SystemCommandSetup, c: SystemCommandCleanup) -> World;
 pub uninterp spec fn setup_eff(w: World, s: SystemCommandSetup) -> World;
 pub uninterp spec fn run_eff(w: World, cb: SystemCommandCallback, c: SystemCommandCleanup) -> World;
-pub uninterp spec fn replay_eff(w: World, buffered: Seq<BufferedSyscommand>, command: SystemCommand) -> World;
 //@extern src/ecs/auto_despawn.rs - garbage_collect_entities
 //@| ensures *final(world) == gc_eff(*old(world)),
 //@extern src/react/utils.rs - schedule_removal_and_despawn_reactors
@@ -141,32 +140,58 @@ pub uninterp spec fn replay_eff(w: World, buffered: Seq<BufferedSyscommand>, com
 //@extern src/react/system_command_spawning.rs impl SystemCommandCallback run
 //@| ensures *final(world) == run_eff(*old(world), *old(self), cleanup),
 //@endimpl
-// stands for the dropped `retain` statement: replays (recursively) the buffered commands that equal `command`, keeps the others
-#[verifier::external_body]
-pub fn replay_matching(world: &mut World, buffered: &mut VecDeque<BufferedSyscommand>, command: SystemCommand)
-    ensures *final(world) == replay_eff(*old(world), old(buffered)@, command),
-{ unimplemented!() }
-
 pub open spec fn entry(w: World) -> World { poll_eff(gc_eff(w)) }
 pub open spec fn target_storage(w: World, command: SystemCommand) -> Option<SystemCommandStorage> {
     if w.alive().contains(command.0) && w.storage().dom().contains(command.0) { Some(w.storage()[command.0]) } else { None }
 }
 
+/// What ONE call `syscommand_runner(world, command, setup, cleanup)` promises (clauses A, B, C of the header), as a relation
+/// between the world on entry and on return.  The replay closure is checked against THIS relation with the buffered entry's
+/// own triple (clause D below).
+pub open spec fn runner_post(w_in: World, command: SystemCommand, setup: SystemCommandSetup, cleanup: SystemCommandCleanup, w_out: World) -> bool {
+    let w0 = entry(w_in); let idx = w_in.counter().0; let st = target_storage(w0, command);
+    // A: cannot run now => exactly one cleanup_on_abort after the entry cleanup, nothing else
+    &&& ((st is None || (st->Some_0.callback is None && idx == 0)) ==> (exists|w1: World| #![trigger abort_eff(w1, setup, cleanup)] w_out == abort_eff(w1, setup, cleanup)
+            && w1.counter() == w0.counter() && w1.queue() == w0.queue() && w1.alive() == w0.alive()))
+    // B: callback out and not the root => postponed, nothing else
+    &&& ((st is Some && st->Some_0.callback is None && idx != 0) ==> (w_out.queue().commands@ == w0.queue().commands@.push(BufferedSyscommand { command: command, setup: setup, cleanup: cleanup })
+            && w_out.counter() == w0.counter() && w_out.alive() == w0.alive()))
+    // C: root call that ran its system => quiescent bookkeeping on return
+    &&& ((st is Some && st->Some_0.callback is Some && idx == 0) ==> (w_out.counter().0 == 0 && w_out.queue().commands@.len() == 0))
+}
+/// D (replay of postponed commands; C05, C12, C18 at function level): one step of the replay.  An entry that names the command
+/// that just finished is handed to the runner with ITS OWN (command, setup, cleanup) and leaves the buffer; any other entry is
+/// kept and the world is not touched.
+pub open spec fn replay_step(w_a: World, b: BufferedSyscommand, command: SystemCommand, w_b: World) -> bool {
+    if b.command == command { runner_post(w_a, b.command, b.setup, b.cleanup, w_b) } else { w_b == w_a }
+}
+/// the entries that stay in the buffer, in their original order
+pub open spec fn kept_of(s: Seq<BufferedSyscommand>, command: SystemCommand) -> Seq<BufferedSyscommand>
+    decreases s.len()
+{
+    if s.len() == 0 { Seq::empty() } else {
+        let r = kept_of(s.drop_last(), command);
+        if s.last().command == command { r } else { r.push(s.last()) }
+    }
+}
+
+// loop 1 = the retain loop (rule 14): entries are visited front to back, each exactly once; matching ones replayed with their
+// own triple in buffer order (the chain of intermediate worlds is `verif_trace`), the others kept in order.
 #[verifier::exec_allows_no_decreases_clause]
 //@fn src/react/syscommand_runner.rs - syscommand_runner
-//@| ensures ({ let w0 = entry(*old(world)); let idx = old(world).counter().0; let st = target_storage(w0, command);
-//@|     // A: cannot run now => exactly one cleanup_on_abort after the entry cleanup, nothing else
-//@|     &&& ((st is None || (st->Some_0.callback is None && idx == 0)) ==> (exists|w1: World| #![trigger abort_eff(w1, setup, cleanup)] *final(world) == abort_eff(w1, setup, cleanup)
-//@|             && w1.counter() == w0.counter() && w1.queue() == w0.queue() && w1.alive() == w0.alive()))
-//@|     // B: callback out and not the root => postponed, nothing else
-//@|     &&& ((st is Some && st->Some_0.callback is None && idx != 0) ==> (final(world).queue().commands@ == w0.queue().commands@.push(BufferedSyscommand { command: command, setup: setup, cleanup: cleanup })
-//@|             && final(world).counter() == w0.counter() && final(world).alive() == w0.alive()))
-//@|     // C: root call that ran its system => quiescent bookkeeping on return
-//@|     &&& ((st is Some && st->Some_0.callback is Some && idx == 0) ==> (final(world).counter().0 == 0 && final(world).queue().commands@.len() == 0))
-//@| }),
+//@| ensures runner_post(*old(world), command, setup, cleanup, *final(world)),
 //@ghost | broadcast use axiom_queue_wf, axiom_counter_small;
-//@dropstmt buffered_syscommands .retain | replay_matching(world, &mut buffered_syscommands, command);
-//@loop 1 | invariant true, ensures world.queue().commands@.len() == 0,
+//@liftretain buffered_syscommands .retain | replay_buffered | VecDeque<BufferedSyscommand> | idx: usize
+//@lift| ensures buffered.command == command ==> !keep,
+//@lift|         buffered.command != command ==> keep,
+//@lift|         replay_step(*old(world), *buffered, command, *final(world)),
+//@lift.pre | let ghost mut verif_trace: Seq<World> = seq![*world]; let ghost verif_s = buffered_syscommands@;
+//@lift.post | proof { verif_trace = verif_trace.push(*world); assert(verif_s.take(verif_it.index@ + 1).drop_last() =~= verif_s.take(verif_it.index@ as int)); }
+//@loop 1 | invariant verif_it.seq().len() == verif_s.len(), forall|i: int| 0 <= i < verif_s.len() ==> *(#[trigger] verif_it.seq()[i]) == verif_s[i], verif_trace.len() == verif_it.index@ + 1, *world == verif_trace[verif_it.index@ as int],
+//@loop 1 |     forall|j: int| 0 <= j < verif_it.index@ ==> replay_step(#[trigger] verif_trace[j], verif_s[j], command, verif_trace[j + 1]),
+//@loop 1 |     verif_kept@ == kept_of(verif_s.take(verif_it.index@ as int), command),
+//@loop 2 | invariant true, ensures world.queue().commands@.len() == 0,
+//@before world.resource_mut::<CobwebCommandQueue<BufferedSyscommand>>().append | assert(buffered_syscommands@ == kept_of(verif_s, command)) by { assert(verif_s.take(verif_s.len() as int) =~= verif_s); }
 
 } // verus!
 fn main() {}
